@@ -64,6 +64,7 @@ fn main() {
         "C01" => {
             c01::generate(&mut out, seed, thorough);
             let mut rng = Rng::new(seed ^ 0xC0EF);
+            rprops::gen_ss_documented(&mut out, &mut rng, if thorough { 400 } else { 60 });
             coeffs::generate(&mut out, &mut rng, if thorough { 20000 } else { 2500 }, if thorough { 40 } else { 12 }, &[0, 1, 2, 3, 4, 5, 6]);
         }
         "C02" => {
